@@ -9,7 +9,7 @@
 #include <errno.h>
 
 #define NV 4
-static unsigned char VB[NV + 1][160];
+static unsigned char VB[NV + 1][2112];
 static size_t VS[NV + 1];
 static void setv(int id, const void *b, size_t n) { memcpy(VB[id], b, n); VS[id] = n; }
 static void profile_init(int p) {
@@ -23,6 +23,11 @@ static void profile_init(int p) {
         unsigned char b[150];
         for (int i = 0; i < 150; i++) b[i] = (unsigned char) (i * 7 + 3) | 1;
         setv(1, b, 100); b[5] ^= 0x40; setv(2, b, 100); setv(3, b, 99); b[148] = 0; b[149] = 0; setv(4, b, 150);
+    } else if (p == 5) {
+        /* lengths at the sizes of the formatting scratch buffer (1024, doubling): addstrf / pushstr of exactly that many characters */
+        static unsigned char b[2100];
+        for (int i = 0; i < 2100; i++) b[i] = (unsigned char) ('a' + (i * 7 + i / 26) % 26);
+        setv(1, b, 1024); setv(2, b + 1, 1023); setv(3, b + 2, 2048); setv(4, b + 3, 1025);
     } else if (p == 4) {
         setv(1, "p\0q", 3); setv(2, "p\0r", 3); setv(3, "p\0", 2); setv(4, "p\0q\0", 4);   /* equal up to an embedded NUL */
     } else {
